@@ -86,7 +86,7 @@ def plan(prop, tier, seed):
         if q:
             return [
                 ("asan", f"n=3,e=3,m=2,x=2,plain=1,sameref=0,bare=1,keep=1,probe=1,layouts={L(2)}", []),
-                ("asan", f"n=3,e=3,m=2,x=2,{CORE},layouts={L(2)}", []),
+                ("asan", f"n=3,e=3,m=2,x=2,{CORE},late=1,layouts={L(2)}", []),
                 ("asan", f"n=3,e=2,m=2,x=2,w=1,ws=0,weak=1,plain=1,sameref=0,bare=0,keep=0,consume=1,layouts={L(2)}", []),
             ]
         return [
